@@ -1,3 +1,173 @@
-(** Proofs about model/Ids.v (C06). *)
+(** Proofs about model/Ids.v (C06).  Each headline lemma is re-stated in props/C06.v
+    and closed there by exact. *)
+From Coq Require Import Permutation Sorted.
 From V.lib Require Import Prelude Wire.
 From V.model Require Import PackUri Ids.
+From V.proofs Require Import Prelude_proofs PackUri_proofs.
+
+Local Open Scope Z_scope.
+
+(* ============================================================================== *)
+(** * Generic helpers *)
+
+Lemma mapM_ok {A B} (f : A -> res B) l ys :
+  mapM f l = Ok ys <-> Forall2 (fun x y => f x = Ok y) l ys.
+Proof.
+  revert ys; induction l as [|x l IH]; intros ys; simpl.
+  - split; intros H.
+    + inversion H; constructor.
+    + inversion H; reflexivity.
+  - destruct (f x) as [y|e] eqn:Ex; simpl.
+    + destruct (mapM f l) as [zs|e] eqn:El; simpl.
+      * split; intros H.
+        -- inversion H; subst. constructor; auto. apply IH; reflexivity.
+        -- inversion H as [|? y' ? zs' Hxy Hrest]; subst.
+           rewrite Ex in Hxy; inversion Hxy; subst.
+           apply IH in Hrest. inversion Hrest; reflexivity.
+      * split; intros H; [discriminate|].
+        inversion H as [|? y' ? zs' Hxy Hrest]; subst. apply IH in Hrest; discriminate.
+    + split; intros H; [discriminate|].
+      inversion H as [|? y' ? zs' Hxy Hrest]; subst. rewrite Ex in Hxy; discriminate.
+Qed.
+
+Lemma mapM_err {A B} (f : A -> res B) l e :
+  mapM f l = Err e -> exists x, In x l /\ f x = Err e.
+Proof.
+  induction l as [|x l IH]; simpl; [discriminate|].
+  destruct (f x) as [y|e'] eqn:Ex; simpl.
+  - destruct (mapM f l) as [zs|e''] eqn:El; simpl; [discriminate|].
+    intros H; inversion H; subst. destruct (IH eq_refl) as [x' [Hin Hx']]. eauto.
+  - intros H; inversion H; subst. eauto.
+Qed.
+
+Lemma mapM_all_ok {A B} (f : A -> res B) l :
+  (forall x, In x l -> exists y, f x = Ok y) -> exists ys, mapM f l = Ok ys.
+Proof.
+  induction l as [|x l IH]; intros H; simpl; [eauto|].
+  destruct (H x (or_introl eq_refl)) as [y Hy]. rewrite Hy; simpl.
+  destruct IH as [ys Hys]; [intros; apply H; right; auto|]. rewrite Hys; simpl; eauto.
+Qed.
+
+Lemma mapM_app {A B} (f : A -> res B) l1 l2 y1 y2 :
+  mapM f l1 = Ok y1 -> mapM f l2 = Ok y2 -> mapM f (l1 ++ l2) = Ok (y1 ++ y2).
+Proof.
+  intros H1 H2. apply mapM_ok. apply Forall2_app; apply mapM_ok; auto.
+Qed.
+
+Lemma memZ_In x l : memZ x l = true <-> In x l.
+Proof.
+  unfold memZ; rewrite existsb_exists; split.
+  - intros [y [Hy He]]. apply Z.eqb_eq in He; subst; auto.
+  - intros H; exists x; split; auto. apply Z.eqb_refl.
+Qed.
+
+Lemma max_from_spec x l :
+  x <= max_from x l /\ (forall y, In y l -> y <= max_from x l) /\
+  (max_from x l = x \/ In (max_from x l) l).
+Proof.
+  unfold max_from. revert x; induction l as [|a l IH]; intros x; simpl.
+  - split; [lia|]. split; [intros y []|auto].
+  - destruct (IH (Z.max x a)) as [H1 [H2 H3]]. split; [lia|]. split.
+    + intros y [->|Hy]; [lia|auto].
+    + destruct H3 as [H3|H3]; [|auto].
+      destruct (Z.max_spec x a) as [[_ E]|[_ E]]; rewrite E in *.
+      * right; left; auto.
+      * left; auto.
+Qed.
+
+(** consecutive integers *)
+Fixpoint zseq (start : Z) (len : nat) : list Z :=
+  match len with O => [] | S k => start :: zseq (start + 1) k end.
+
+Lemma zseq_In s len x : In x (zseq s len) <-> s <= x < s + Z.of_nat len.
+Proof.
+  revert s; induction len as [|k IH]; intros s; simpl zseq.
+  - simpl; lia.
+  - simpl In. rewrite IH. lia.
+Qed.
+
+Lemma zseq_NoDup s len : NoDup (zseq s len).
+Proof.
+  revert s; induction len as [|k IH]; intros s; simpl; constructor; auto.
+  rewrite zseq_In; lia.
+Qed.
+
+Lemma zseq_length s len : length (zseq s len) = len.
+Proof. revert s; induction len; intros; simpl; auto. Qed.
+
+(* ============================================================================== *)
+(** * Decimal rendering is injective and is read back by [dec_value] *)
+
+Definition dstep (acc c : N) : N := (acc * 10 + (c - 48))%N.
+
+Lemma dec_digits_fuel_spec fuel : forall n acc,
+  (n < 10 ^ N.of_nat fuel)%N ->
+  fold_left dstep (dec_digits_fuel fuel n acc) 0%N = fold_left dstep acc n.
+Proof.
+  induction fuel as [|f IH]; intros n acc Hn.
+  - simpl in Hn. assert (n = 0)%N by lia. subst. reflexivity.
+  - cbn [dec_digits_fuel]. destruct (n <? 10)%N eqn:E.
+    + apply N.ltb_lt in E. cbn [fold_left]. unfold dstep at 2.
+      rewrite N.mod_small by lia. f_equal. rewrite (N.add_comm 48), N.add_sub. reflexivity.
+    + apply N.ltb_ge in E. rewrite IH.
+      * cbn [fold_left]. f_equal. unfold dstep.
+        rewrite (N.add_comm 48), N.add_sub, N.mul_comm. symmetry. apply N.div_mod. discriminate.
+      * rewrite Nnat.Nat2N.inj_succ, N.pow_succ_r' in Hn.
+        apply N.div_lt_upper_bound; lia.
+Qed.
+
+Lemma size_pow10 n : (n < 10 ^ N.of_nat (S (N.to_nat (N.size n))))%N.
+Proof.
+  rewrite Nnat.Nat2N.inj_succ, Nnat.N2Nat.id.
+  destruct n as [|p]; [simpl; lia|].
+  pose proof (N.size_gt (N.pos p)) as H.
+  assert (2 ^ N.size (N.pos p) <= 10 ^ N.size (N.pos p))%N by (apply N.pow_le_mono_l; lia).
+  rewrite N.pow_succ_r'. lia.
+Qed.
+
+Lemma dec_value_dec_of_N n : dec_value (dec_of_N n) = n.
+Proof.
+  unfold dec_value, dec_of_N.
+  change (fun acc c : N => (acc * 10 + (c - 48))%N) with dstep.
+  rewrite dec_digits_fuel_spec by apply size_pow10. reflexivity.
+Qed.
+
+Lemma dec_of_N_inj a b : dec_of_N a = dec_of_N b -> a = b.
+Proof. intros H. rewrite <- (dec_value_dec_of_N a), <- (dec_value_dec_of_N b), H. reflexivity. Qed.
+
+Lemma dec_digits_fuel_digits fuel : forall n acc,
+  forallb is_digit acc = true -> forallb is_digit (dec_digits_fuel fuel n acc) = true.
+Proof.
+  induction fuel as [|f IH]; intros n acc Ha; cbn [dec_digits_fuel]; auto.
+  assert (Hd : is_digit (48 + n mod 10)%N = true).
+  { unfold is_digit. pose proof (N.mod_upper_bound n 10 ltac:(discriminate)) as Hm.
+    set (m := (n mod 10)%N) in *. clearbody m.
+    apply andb_true_iff; split; apply N.leb_le; lia. }
+  assert (Hc : forallb is_digit ((48 + n mod 10)%N :: acc) = true).
+  { cbn [forallb]. rewrite Hd, Ha. reflexivity. }
+  destruct (n <? 10)%N; auto.
+Qed.
+
+Lemma dec_of_N_digits n : forallb is_digit (dec_of_N n) = true.
+Proof. apply dec_digits_fuel_digits. reflexivity. Qed.
+
+Lemma dec_digits_fuel_nonnil fuel n acc : fuel <> O -> dec_digits_fuel fuel n acc <> [].
+Proof.
+  revert n acc; induction fuel as [|f IH]; intros n acc Hf; [congruence|].
+  simpl. destruct (n <? 10)%N; [discriminate|].
+  destruct f as [|f']; [simpl; discriminate|]. apply IH. discriminate.
+Qed.
+
+Lemma dec_of_N_nonnil n : dec_of_N n <> [].
+Proof. apply dec_digits_fuel_nonnil. discriminate. Qed.
+
+Lemma dec_digits_fuel_length fuel : forall n acc,
+  (length (dec_digits_fuel fuel n acc) <= fuel + length acc)%nat.
+Proof.
+  induction fuel as [|f IH]; intros n acc; simpl; [lia|].
+  destruct (n <? 10)%N; simpl; [lia|].
+  specialize (IH (n / 10)%N ((48 + n mod 10)%N :: acc)). simpl in IH. lia.
+Qed.
+
+Lemma dec_of_N_length n : (length (dec_of_N n) <= S (N.to_nat (N.size n)))%nat.
+Proof. unfold dec_of_N. pose proof (dec_digits_fuel_length (S (N.to_nat (N.size n))) n []). simpl in *. lia. Qed.
